@@ -99,7 +99,28 @@ def _py_member(out, ind, mem, i, dunder_i):
     out.add(ind + 1, f"return {ret}")
 
 
+_PY_BRANCH = {
+    "if": ["if FLAG_{n}:"],
+    "else": ["if FLAG_{n}:", "    x_{n} = 1", "else:"],
+    "elif": ["if FLAG_{n}:", "    x_{n} = 1", "elif OTHER_{n}:"],
+    "try": ["try:"],
+    "except": ["try:", "    import mod_{n}", "except ImportError:"],
+    "try-else": ["try:", "    import mod_{n}", "except ImportError:", "    mod_{n} = None", "else:"],
+    "finally": ["try:", "    x_{n} = 1", "finally:"],
+    "case": ["match MODE_{n}:", "    case 1:", "        x_{n} = 1", "    case _:"],
+    "with": ["with ctx_{n}():"],
+    "for-else": ["for i_{n} in ITEMS_{n}:", "    x_{n} = i_{n}", "else:"],
+}
+_PY_BRANCH_TAIL = {"try": ["except ImportError:", "    pass"]}
+
+
 def _py_class(out, ind, cls, infos):
+    branch = cls.get("branch")
+    if branch:
+        n = cls["name"].lower()
+        for ln in _PY_BRANCH[branch]:
+            out.add(ind, ln.format(n=n))
+        ind += 2 if branch == "case" else 1
     if cls.get("in_func"):
         out.add(ind, f"def make_{cls['name'].lower()}():")
         ind += 1
@@ -120,6 +141,10 @@ def _py_class(out, ind, cls, infos):
     info["spans"] = [(start, out.pos())]
     if cls.get("in_func"):
         out.add(ind, f"return {cls['name']}")
+    if branch:
+        ind -= 2 if branch == "case" else 1
+        for ln in _PY_BRANCH_TAIL.get(branch, []):
+            out.add(ind, ln)
 
 
 # ------------------------------------------------------------------------------------ ts / js
